@@ -25,7 +25,7 @@ var wholeSkews = []time.Duration{0, time.Second, 59 * time.Second, 10 * time.Min
 
 // drawModel draws RawJWTOptions whose time claims are valid at `now` under `skew` (whole seconds),
 // edges included: exp down to now-skew+1, nbf / iat up to now+skew.
-func drawModel(rt *rapid.T, nowSec int64, skew time.Duration, iatMustHold bool) model {
+func drawModel(rt *rapid.T, nowSec int64, skew time.Duration, iatMustHold, tame bool) model {
 	m := model{opts: &jwt.RawJWTOptions{}, claims: map[string]any{}}
 	sk := int64(skew / time.Second)
 	if rapid.Bool().Draw(rt, "has_typ") {
@@ -104,7 +104,7 @@ func drawModel(rt *rapid.T, nowSec int64, skew time.Duration, iatMustHold bool) 
 	}
 	for i := 0; i < n; i++ {
 		name := drawClaimName(rt, fmt.Sprintf("custom%d_name", i))
-		v := drawValue(rt, fmt.Sprintf("custom%d", i), 0)
+		v := drawValueT(rt, fmt.Sprintf("custom%d", i), 0, tame)
 		m.claims[name] = v
 		m.opts.CustomClaims[name] = v
 	}
@@ -173,7 +173,7 @@ func TestRoundTrip(t *testing.T) {
 		p := single(rt, k)
 		skew := rapid.SampledFrom(wholeSkews).Draw(rt, "skew")
 		now := drawNow(rt, 601)
-		m := drawModel(rt, now.Unix(), skew, true)
+		m := drawModel(rt, now.Unix(), skew, true, false)
 		_, hasIAT := m.claims["iat"]
 		expectIAT := hasIAT && rapid.Bool().Draw(rt, "v_expect_iat")
 		v := matchingValidator(rt, m, now, skew, expectIAT)
